@@ -271,7 +271,7 @@ SemaphoreInterrupts ==
 \* request bit 14 is a latch: up only by an interrupt, down only by the acknowledge write
 IcuLatch ==
     [][ /\ (y.icu = 0 /\ y'.icu = 1) => NumH(ev'.hc, "irq") >= 1
-        /\ (y.icu = 1 /\ y'.icu = 0) => ev'.e = "W" /\ ev'.c = AIcuAck
+        /\ (y.icu = 1 /\ y'.icu = 0) => (ev'.e = "W" /\ ev'.c = AIcuAck) \/ ev'.e = "New"   \* New: another instance
         /\ NumH(ev'.hc, "irq") >= 1 => y'.icu = 1
       ]_vars
 =============================================================================
